@@ -97,6 +97,8 @@ def parse_type(s: str):
             return ("Masked2", atom())
         if h == "Stream":                     # an iterator that may raise after its items (Py.Stream)
             return ("Stream", atom())
+        if h == "Set":                        # a Python set: a duplicate-free list in insertion order (`Py.Set`)
+            return ("Set", atom())
         if h == "Dict":
             k = atom(); v = atom()
             return ("Dict", k, v)
@@ -150,6 +152,8 @@ def show_type(t) -> str:
         return f"(List {show_type(t[1])})"
     if t[0] == "Masked2":
         return f"(Py.Masked2 {show_type(t[1])})"
+    if t[0] == "Set":
+        return f"(List {show_type(t[1])})"
     if t[0] in ("Dict", "DDict"):
         return f"(Py.Dict {show_type(t[1])} {show_type(t[2])})"
     if t[0] == "Prod":
@@ -454,13 +458,19 @@ class FnTr:
             return f"({c}).isSome"
         if t == "Int":
             return f"(decide ({c} ≠ 0))"
-        if isinstance(t, tuple) and t[0] in ("List", "Dict"):
+        if isinstance(t, tuple) and t[0] in ("List", "Dict", "Set"):
             return f"(!({c}).isEmpty)"
         raise Untranslatable(f"truthiness of type {t}")
 
     def e_BinOp(self, e, want):
         s1, a, ta = self.tr(e.left)
         s2, b, tb = self.tr(e.right)
+        if ta == ("Option", "Int") and tb == "Int":
+            n0 = self.bindname()                            # `None + 1` raises TypeError
+            s1, a, ta = s1 + [f"Py.bind ({a}) fun {n0} =>"], n0, "Int"
+        if ta == "Int" and tb == ("Option", "Int"):
+            n0 = self.bindname()
+            s2, b, tb = s2 + [f"Py.bind ({b}) fun {n0} =>"], n0, "Int"
         if ta == "Int" and tb == "Int":
             op = {ast.Add: "+", ast.Sub: "-", ast.Mult: "*"}.get(type(e.op))
             if op:
@@ -531,7 +541,7 @@ class FnTr:
         s1, a, ta = self.tr(l)
         s2, b, tb = self.tr(r)
         if isinstance(op, (ast.In, ast.NotIn)):
-            if isinstance(tb, tuple) and tb[0] == "List":
+            if isinstance(tb, tuple) and tb[0] in ("List", "Set"):
                 c = f"(({b}).contains {a})"
             elif isinstance(tb, tuple) and tb[0] == "Dict":
                 c = f"(Py.Dict.contains {b} {a})"
@@ -751,7 +761,7 @@ class FnTr:
         return e
 
     def elem_type(self, t):
-        if isinstance(t, tuple) and t[0] in ("List", "Stream"):
+        if isinstance(t, tuple) and t[0] in ("List", "Stream", "Set"):
             return t[1]
         if isinstance(t, tuple) and t[0] in ("Dict", "DDict"):
             return t[1]
@@ -1062,6 +1072,14 @@ class FnTr:
         if f == "dict" and len(args) == 1 and isinstance(args[0], ast.Call) and ast.unparse(args[0].func) == "zip":
             s1, a, ta = self.tr(args[0].args[0]); s2, b, tb = self.tr(args[0].args[1])
             return s1 + s2, f"(Py.Dict.ofZip {a} {b})", ("Dict", self.elem_type(ta), self.elem_type(tb))
+        if f == "set" and len(args) == 1:
+            s0, c, t = self.tr(args[0])
+            if isinstance(t, tuple) and t[0] in ("List", "Set"):
+                return s0, f"(Py.Set.ofList {c})", ("Set", t[1])
+        if f == "any" and len(args) == 1:
+            s0, c, t = self.tr(args[0])
+            if t == ("List", "Bool"):
+                return s0, f"(Py.any {c})", "Bool"
         if f == "bool" and len(args) == 1:
             s, c, t = self.tr(args[0])
             return s, self.as_bool(c, t), "Bool"
@@ -1286,6 +1304,15 @@ class FnTr:
                 lv = self.lvalue(recv)
                 # the receiver is read AFTER the argument was evaluated (the argument may not touch it)
                 return self.chain(s1, ".next " + lv(f"(v.{lname(recv.id)} ++ {x})") if isinstance(recv, ast.Name) else None)
+            if meth in ("remove", "add") and len(e.args) == 1:
+                s0, a, ta = self.tr(recv)
+                if isinstance(ta, tuple) and ta[0] == "Set":
+                    s1, x, _ = self.tr(e.args[0])
+                    lv = self.lvalue(recv)
+                    if meth == "add":
+                        return self.chain(s0 + s1, ".next " + lv(f"(Py.Set.add {a} {x})"))
+                    n = self.bindname()                     # KeyError when the element is absent
+                    return self.chain(s0 + s1 + [f"Py.bind (Py.Set.remove {a} {x}) fun {n} =>"], ".next " + lv(n))
             if meth == "reverse" and not e.args:
                 s0, a, ta = self.tr(recv)
                 if isinstance(ta, tuple) and ta[0] == "List":
@@ -1334,6 +1361,10 @@ class FnTr:
                 self.vars[tgt.id] = t
             if isinstance(want, tuple) and want[0] == "Option" and t == want[1]:
                 c, t = self.coerce(c, t, want), want           # a value stored into a variable that may also hold None
+            if want is not None and t == ("Option", want) and t != want:
+                # the source copies a variable it has just tested `is not None`: a None here is unreachable, and is an error in the typed model
+                n0 = self.bindname()
+                st, c, t = st + [f"Py.bind ({c}) fun {n0} =>"], n0, want
             key = self.assign_version(tgt.id, t)
             self.check_type(key, t, s)
             return self.chain(st, f".next {{ v with {lname(key)} := {c} }}")
